@@ -3,14 +3,20 @@ package mcrt
 import (
 	"io"
 	"os"
+	"reflect"
 	"time"
+	"unsafe"
 )
+
+// chanKey identifies a channel independently of its static type (named,
+// directional): a channel value is a pointer to its runtime object.
+func chanKey[C any](ch C) uintptr { return *(*uintptr)(unsafe.Pointer(&ch)) }
 
 // Hooks called by instrumented code.  With no exploration active they are the
 // plain Go operations.
 
 // Send is `ch <- v`.
-func Send[T any](ch chan T, v T) {
+func Send[C ~chan T | ~chan<- T, T any](ch C, v T) {
 	s := cur
 	if s == nil {
 		ch <- v
@@ -21,13 +27,13 @@ func Send[T any](ch chan T, v T) {
 	}
 	var cs *chanState
 	if ch != nil {
-		cs = s.chanOf(ch, cap(ch))
+		cs = s.chanOf(chanKey(ch), cap(ch), ch)
 	}
 	s.park(&op{kind: opSend, ch: cs, val: v})
 }
 
 // Recv2 is `v, ok := <-ch`.
-func Recv2[T any](ch chan T) (T, bool) {
+func Recv2[C ~chan T | ~<-chan T, T any](ch C) (T, bool) {
 	s := cur
 	if s == nil {
 		v, ok := <-ch
@@ -39,7 +45,7 @@ func Recv2[T any](ch chan T) (T, bool) {
 	}
 	var cs *chanState
 	if ch != nil {
-		cs = s.chanOf(ch, cap(ch))
+		cs = s.chanOf(chanKey(ch), cap(ch), ch)
 	}
 	t := s.park(&op{kind: opRecv, ch: cs})
 	if !t.ok || t.result == nil {
@@ -51,13 +57,13 @@ func Recv2[T any](ch chan T) (T, bool) {
 }
 
 // Recv is `<-ch`.
-func Recv[T any](ch chan T) T {
-	v, _ := Recv2(ch)
+func Recv[C ~chan T | ~<-chan T, T any](ch C) T {
+	v, _ := Recv2[C, T](ch)
 	return v
 }
 
 // Close is `close(ch)`.
-func Close[T any](ch chan T) {
+func Close[C ~chan T | ~chan<- T, T any](ch C) {
 	s := cur
 	if s == nil {
 		close(ch)
@@ -68,7 +74,7 @@ func Close[T any](ch chan T) {
 	}
 	var cs *chanState
 	if ch != nil {
-		cs = s.chanOf(ch, cap(ch))
+		cs = s.chanOf(chanKey(ch), cap(ch), ch)
 	}
 	s.park(&op{kind: opClose, ch: cs})
 }
@@ -85,6 +91,21 @@ func Go(name string, fn func()) {
 		return
 	}
 	s.newThread(name, fn)
+}
+
+// GoLow starts a harness thread that the default schedule runs only when no
+// other thread can (timers, gate openers); every other placement is reached
+// through the explorer's alternatives.
+func GoLow(name string, fn func()) {
+	s := cur
+	if s == nil {
+		go fn()
+		return
+	}
+	if s.running.aborting {
+		return
+	}
+	s.newThread(name, fn).low = true
 }
 
 // Yield is a pure scheduling point (inserted at function and loop entry in
@@ -309,4 +330,107 @@ func (s *Sched) wgOf(key interface{}) *wgState {
 		s.wgs[key] = w
 	}
 	return w
+}
+
+// After is time.After on the virtual clock: the returned channel delivers its
+// single value at any later step of the explorer's choosing (time may pass
+// arbitrarily fast relative to computation); the clock then jumps to the wake time.
+func After(d time.Duration) chan time.Time {
+	ch := make(chan time.Time, 1)
+	s := cur
+	if s == nil {
+		go func() { time.Sleep(d); ch <- time.Now() }()
+		return ch
+	}
+	if s.running != nil && s.running.aborting {
+		return ch
+	}
+	cs := s.chanOf(chanKey(ch), 1, ch)
+	cs.timer, cs.wake = true, s.now.Add(d)
+	return ch
+}
+
+// Sel is a select statement under construction (see cmd/instr).
+type Sel struct {
+	cases      []selCase
+	real       []reflect.SelectCase
+	hasDefault bool
+	recvs      []func(v interface{}, ok bool)
+	chosen     int
+}
+
+// RecvCase is the typed result slot of one receive case.
+type RecvCase[T any] struct {
+	Val T
+	Ok  bool
+}
+
+// NewSelect starts a select.
+func NewSelect() *Sel { return &Sel{} }
+
+// SelRecv adds `case v, ok := <-ch`.
+func SelRecv[C ~chan T | ~<-chan T, T any](sl *Sel, ch C) *RecvCase[T] {
+	rc := &RecvCase[T]{}
+	var cs *chanState
+	if s := cur; s != nil && !reflect.ValueOf(ch).IsNil() && !(s.running != nil && s.running.aborting) {
+		cs = s.chanOf(chanKey(ch), cap(ch), ch)
+	}
+	sl.cases = append(sl.cases, selCase{ch: cs})
+	sl.real = append(sl.real, reflect.SelectCase{Dir: reflect.SelectRecv, Chan: reflect.ValueOf(ch)})
+	sl.recvs = append(sl.recvs, func(v interface{}, ok bool) {
+		rc.Ok = ok
+		if ok && v != nil {
+			rc.Val = v.(T)
+		}
+	})
+	return rc
+}
+
+// SelSend adds `case ch <- v`.
+func SelSend[C ~chan T | ~chan<- T, T any](sl *Sel, ch C, v T) {
+	var cs *chanState
+	if s := cur; s != nil && !reflect.ValueOf(ch).IsNil() && !(s.running != nil && s.running.aborting) {
+		cs = s.chanOf(chanKey(ch), cap(ch), ch)
+	}
+	sl.cases = append(sl.cases, selCase{send: true, ch: cs, val: v, vh: HashVal(v) | 1})
+	sl.real = append(sl.real, reflect.SelectCase{Dir: reflect.SelectSend, Chan: reflect.ValueOf(ch), Send: reflect.ValueOf(v)})
+	sl.recvs = append(sl.recvs, nil)
+}
+
+// Default adds a default case.
+func (sl *Sel) Default() { sl.hasDefault = true }
+
+// Do blocks until one case proceeds and returns its index (-1 = default).
+func (sl *Sel) Do() int {
+	s := cur
+	if s == nil {
+		cases := sl.real
+		if sl.hasDefault {
+			cases = append(append([]reflect.SelectCase{}, cases...), reflect.SelectCase{Dir: reflect.SelectDefault})
+		}
+		i, v, ok := reflect.Select(cases)
+		if i >= len(sl.real) {
+			return -1
+		}
+		if f := sl.recvs[i]; f != nil {
+			var val interface{}
+			if ok {
+				val = v.Interface()
+			}
+			f(val, ok)
+		}
+		return i
+	}
+	if s.running.aborting {
+		panic(abortSentinel{})
+	}
+	t := s.park(&op{kind: opSelect, cases: sl.cases, hasDefault: sl.hasDefault})
+	i := t.selIdx
+	if i >= 0 {
+		if f := sl.recvs[i]; f != nil {
+			f(t.result, t.ok)
+			t.result = nil
+		}
+	}
+	return i
 }
